@@ -218,11 +218,17 @@ pub struct ProtoCase {
     pub solve: SolveCase,
     /// None = sequential solver; Some(k) = parallel solver with k real threads
     pub threads: Option<usize>,
+    /// the cutoff fires at this poll (interrupted compilations are monitored like the others)
+    #[serde(default)]
+    pub fire_at: Option<usize>,
 }
 fn eval_proto_solver(case: &ProtoCase, obs: &mut CaseObs, check_width: bool) -> Verdict {
     let t = &case.solve.t;
     let o = Oracle::new(t);
-    let out = run_table(t, &o, &case.solve.cfg, &RunOpts { record: true, threads: case.threads, ..Default::default() });
+    let out = run_table(t, &o, &case.solve.cfg, &RunOpts { record: true, threads: case.threads, fire_at: case.fire_at, ..Default::default() });
+    if case.fire_at.is_some() {
+        obs.label(if out.fired { "cutoff-fired" } else { "cutoff-armed-not-reached" });
+    }
     if out.panic.is_some() || out.exhausted {
         return Verdict::Pass; // C01 / C03 business
     }
@@ -277,7 +283,7 @@ fn eval_proto_dd(case: &DdCase, obs: &mut CaseObs, check_width: bool) -> Verdict
     }
 }
 fn proto_strategy(p: GenParams, max_width: usize) -> impl Strategy<Value = ProtoCase> {
-    (solve_case_strategy(p, ConfigGen { max_width, ..Default::default() }), prop_oneof![4 => Just(None), 1 => (1usize..=3).prop_map(Some)]).prop_map(|(solve, threads)| ProtoCase { solve, threads })
+    (solve_case_strategy(p, ConfigGen { max_width, ..Default::default() }), prop_oneof![4 => Just(None), 1 => (1usize..=3).prop_map(Some)], prop_oneof![2 => Just(None), 1 => (1usize..80).prop_map(Some)]).prop_map(|(solve, threads, fire_at)| ProtoCase { solve, threads, fire_at })
 }
 fn run_proto(ctx: &mut Ctx, check_width: bool) {
     let mut p = GenParams::default_small();
@@ -288,7 +294,7 @@ fn run_proto(ctx: &mut Ctx, check_width: bool) {
     ctx.pt_run("solver-runs", cases, proto_strategy(p.clone(), 5), |c| serde_json::to_value(c).unwrap(), |c, obs| eval_proto_solver(c, obs, check_width));
     let cases = ctx.tier.pick(40_000, 400_000);
     let types = vec![CType::Exact, CType::Restricted, CType::Relaxed];
-    ctx.pt_run("direct-compilations", cases, dd_case_strategy(p, types, vec![DdKind::Lel, DdKind::Frontier, DdKind::Pooled]), |c| serde_json::to_value(c).unwrap(), |c, obs| eval_proto_dd(c, obs, check_width));
+    ctx.pt_run("direct-compilations", cases, dd_case_strategy_cut(p, types, vec![DdKind::Lel, DdKind::Frontier, DdKind::Pooled], true), |c| serde_json::to_value(c).unwrap(), |c, obs| eval_proto_dd(c, obs, check_width));
 }
 fn replay_proto(part: &str, case: &Value, check_width: bool) -> Verdict {
     if part == "solver-runs" {
